@@ -237,4 +237,52 @@ example : gacc .ik "CreateTransaction" (ginit .ik "CreateTransaction")
 example : entryPoints.all (fun e => (paths e.1 e.2).any (fun p =>
     !(tagged p).any isPanic && p.any (isTakeOk .iks) && p.any isAppend && p.any (isRelease .iks))) = true := by decide +kernel
 
+/-! a concrete run: the hypotheses of the theorems are satisfiable and the runs they speak about do something.  The store
+holds a log with idempotency key "k"; request 1 (`CreateTransaction`, preview, key "k") follows the skeleton's path
+"reserve the key, look it up, found: release, answer with the stored transaction" to its end. -/
+
+def store1 : List LogE :=
+  [{ id := 0, kind := .create, txid := some 0, ik := "k", ref := "", reverts := none, postings := [], target := "",
+     metaKey := "", prevId := none, hashOk := true }]
+
+def job1 : Sys.Job :=
+  { a := 1, ep := "CreateTransaction",
+    req := { kind := .create, dry := true, ik := "k", ref := "", target := 0, force := false, over := 0 },
+    postings := [], target := "", metaKey := "", r := [], w := [], bals := [] }
+
+def path1 : Path := tagged (((paths "CreateTransaction" createTransaction)[1]?).getD [])
+
+def sawRetry (o : Option (List Ev × Sys.Shared × Sys.Regs)) : Bool :=
+  match o with
+  | some r =>
+    r.1.any (fun e => match e with | .taken 1 "ik" "k" true => true | _ => false) &&
+    r.1.any (fun e => match e with | .ikRead 1 "k" (some 0) => true | _ => false) &&
+    r.1.any (fun e => match e with | .finish 1 true _ (some 0) => true | _ => false) &&
+    r.2.1.held.isEmpty
+  | none => false
+
+theorem admitted1 : AdmittedG (fun _ => false) job1 path1 := by
+  refine ⟨⟨("CreateTransaction", createTransaction), by simp [entryPoints], rfl,
+    ((paths "CreateTransaction" createTransaction)[1]?).getD [], ?_, rfl⟩, ?_, ?_⟩
+  · have h : (paths "CreateTransaction" createTransaction)[1]? =
+        some (((paths "CreateTransaction" createTransaction)[1]?).getD []) := by decide +kernel
+    exact List.mem_of_getElem? h
+  · show path1.any isPanic = false
+    decide +kernel
+  · refine ⟨⟨fun _ => rfl, fun _ => rfl⟩, ⟨(fun h => by cases h), fun h => ?_⟩, rfl⟩
+    have : ("CreateTransaction" : String) ≠ "RevertTransaction" := by decide
+    exact absurd h this
+
+example : ∃ tr y, Sys.RunY (AdmittedG (fun _ => false)) ⟨Sys.init store1, none⟩ tr y ∧ sawRetry (some (tr, y.st.sh, {})) = true := by
+  have hchk : sawRetry (solo (Sys.init store1).sh job1 {} path1) = true := by decide +kernel
+  cases hs : solo (Sys.init store1).sh job1 {} path1 with
+  | none => rw [hs] at hchk; cases hchk
+  | some res =>
+    rw [hs] at hchk
+    have h1 := Sys.RunY.cons _ _ _ _ _ (Sys.RunY.nil ⟨Sys.init store1, none⟩)
+      (Sys.StepY.arrive (adm := AdmittedG (fun _ => false)) ⟨Sys.init store1, none⟩ job1 path1 (by simp [Sys.init]) admitted1)
+    have hne : path1 ≠ [] := by decide +kernel
+    have h2 := solo_runY' (AdmittedG (fun _ => false)) _ job1 path1 hne _ _ _ _ _ res h1 (.inl rfl) hs
+    exact ⟨_, _, h2, by simpa [sawRetry] using hchk⟩
+
 end SkeletonGuard
